@@ -134,8 +134,19 @@ func init() {
 		}
 		defer os.RemoveAll(dir)
 		out := filepath.Join(dir, "out.csv")
-		if a[3] != "none" {
-			if err := os.WriteFile(out, unhex(a[3]), 0o644); err != nil {
+		// pre-existing state: "<outfile>" or "<outfile>/<outfile.tmp>" (each none | - | hex); a stale
+		// .tmp is what a run killed after an interim write leaves behind
+		preOut, preTmp := a[3], "none"
+		if i := strings.Index(a[3], "/"); i >= 0 {
+			preOut, preTmp = a[3][:i], a[3][i+1:]
+		}
+		if preOut != "none" {
+			if err := os.WriteFile(out, unhex(preOut), 0o644); err != nil {
+				panic(err)
+			}
+		}
+		if preTmp != "none" {
+			if err := os.WriteFile(out+".tmp", unhex(preTmp), 0o644); err != nil {
 				panic(err)
 			}
 		}
@@ -202,6 +213,9 @@ func init() {
 		}
 		if pre != "none" {
 			os.WriteFile(out, unhex(pre), 0o644)
+		}
+		if preTmp != "none" {
+			os.WriteFile(out+".tmp", unhex(preTmp), 0o644)
 		}
 		runChild("-e", fmt.Sprintf("inject=openat,write,rename,renameat,renameat2:signal=SIGKILL:when=%d", first+kill-1))
 		return fmt.Sprintf("killed;out=%s;tmp=%s;query=%s;qtmp=%s", fileState(out), fileState(out+".tmp"),
